@@ -1323,7 +1323,22 @@ func (c *Check) tiersOrdered(rule string) {
 	}
 	ok := false
 	why := "no rejecting path compares a tier's Volume with its predecessor's under a cursor over the whole list"
-	for _, pa := range c.P.PathsOf(f) {
+	// the validator itself and the module functions it hands the tiers to (helpers, methods of a slice type)
+	cands := []*Func{f}
+	seenF := map[*Func]bool{f: true}
+	for i := 0; i < len(cands) && i < 12; i++ {
+		for _, h := range c.P.callees(cands[i]) {
+			if h != nil && h.Body != nil && h.isHandWritten() && h.pkgName() == "types" && !seenF[h] {
+				seenF[h] = true
+				cands = append(cands, h)
+			}
+		}
+	}
+	var allPaths []*Path
+	for _, g := range cands {
+		allPaths = append(allPaths, c.P.PathsOf(g)...)
+	}
+	for _, pa := range allPaths {
 		if pa.Exit != ExitRevert {
 			continue
 		}
@@ -1349,17 +1364,23 @@ func (c *Check) tiersOrdered(rule string) {
 				default:
 					return true
 				}
-				if !strings.HasSuffix(stripConv(list).Op, ".PromotionsByVolume") {
-					return true
-				}
 				whole := (pos.Op == "key" && len(pos.A) == 1 && pos.A[0].Eq(list)) ||
 					(pos.Op == "keyfrom" && len(pos.A) == 2 && pos.A[1].Eq(list) && (pos.A[0].IsAt("#0") || pos.A[0].IsAt("#1")))
 				if !whole {
 					why = "the cursor " + shortTerm(pos) + " does not range over the whole tier list"
 					return true
 				}
-				if prev.Op == "idx" && len(prev.A) == 2 && prev.A[0].Eq(list) && stripConv(prev.A[1]).Eq(mk("-", pos, atom("#1"))) {
-					ok = true
+				if prev.Op == "idx" && len(prev.A) == 2 && prev.A[0].Eq(list) {
+					pi := stripConv(prev.A[1])
+					if pi.Eq(mk("-", pos, atom("#1"))) {
+						ok = true
+					}
+					// the element under a counting cursor (bound like a range element) with the counter as predecessor index
+					if cur.Op == "elem" && pi.Op == "-" && len(pi.A) == 2 && pi.A[1].IsAt("#1") {
+						if kf := stripConv(pi.A[0]); kf.Op == "keyfrom" && len(kf.A) == 2 && kf.A[1].Eq(list) && (kf.A[0].IsAt("#0") || kf.A[0].IsAt("#1")) {
+							ok = true
+						}
+					}
 				}
 				return true
 			})
